@@ -78,6 +78,11 @@ def gen_programs(rng, nclients, big_ok=True, kinds=None, nshared=None):
                 prog.append(Op(c, "List", opno=k))
         prog.append(Op(c, "Bye", opno=99))
         programs.append(prog)
+    if nclients >= 3 and rng.chance(1, 2):
+        # a client that connects and leaves at once (or after one request): its session ends while the others
+        # are in the middle of theirs, so whatever a server does at session end is interleaved with commits
+        b = rng.below(nclients)
+        programs[b] = (programs[b][:1] if rng.chance(1, 3) and programs[b][0].kind != "Bye" else []) + [Op(b, "Bye", opno=99)]
     return programs, contents, initial
 
 
@@ -395,8 +400,16 @@ def _c03_worker(args):
             n = 2
             label = {"program": pname, "bounded": [first, a, b]}
         else:
-            n = rng.pick([2, 2, 3])
+            n = rng.pick([2, 2, 3, 3, 4])
             programs, contents, initial = gen_programs(rng, n, big_ok=rng.chance(1, 2))
+            if n >= 3 and rng.chance(1, 3):
+                # contended: every write and delete names the initial hash of one shared path
+                for pr in programs:
+                    for o in pr:
+                        if o.kind in ("Put", "Delete"):
+                            o.path = o.wire = "f"
+                            o.expected_spec = "init"
+                initial = {"f": "init-f"}
             if mode == "pct":
                 strat = PCT(rng, 2 * n, d=rng.range(1, 3), horizon=rng.pick([40, 120, 300]))
             else:
@@ -563,6 +576,18 @@ def gen_bad_put(rng):
     else:
         bad.extra.update(declared_len=0)
     prog = [Op(0, "Put", "other", expected="none", content="good"), bad]
+    if kind == "wrong-hash" and rng.chance(1, 2):
+        # state carried from a refused Put into the next one on the same connection: the second Put streams
+        # its own bytes but declares the hash of (refused bytes + own bytes) / of (refused bytes)
+        own = b"second-put-own-bytes-" + rng.bytes(6).hex().encode()
+        contents["own"] = own
+        contents["full+own"] = full + own
+        which = rng.pick(["full+own", "full"])
+        p2 = rng.pick(["f", "newfile2", "d/y"])
+        bad2 = Op(0, "Put", p2, expected="init" if p2 == "f" else "none", content="own", bad="after-refused-put-declares-hash-of-" + which, pieces=rng.range(1, 3))
+        bad2.extra["hash_of"] = which
+        prog.append(bad2)
+        kind = "wrong-hash-then-" + bad2.extra["bad"]
     if not bad.extra.get("then_close"):
         prog.append(Op(0, "Bye"))
     return [prog], contents, initial, kind
@@ -675,13 +700,17 @@ def _c10_worker(args):
                 res["distinct"].add("twin|" + run.interleaving_key())
         if badkind:
             cnt("bad_puts[%s]" % badkind)
-            bad = [o for o in run.history if o.extra.get("bad")][0]
+            bads = [o for o in run.history if o.extra.get("bad")]
+            bad = bads[0]
             tree = walk_root(run.root)
-            cur = tree.get(bad.path, (None,))[0]
-            want = ident(contents[initial[bad.path]]) if bad.path in initial else None
             rk = bad.reply.get("kind") if bad.reply else None
-            if cur != want:
-                found.append(("C10|malformed-put-changed-live-path|" + badkind, schedule_report(run, {"op": bad.brief(), "path": bad.path})))
+            for bo in bads:
+                cur = tree.get(bo.path, (None,))[0]
+                want = ident(contents[initial[bo.path]]) if bo.path in initial else None
+                if cur != want:
+                    found.append(("C10|malformed-put-changed-live-path|" + badkind, schedule_report(run, {"op": bo.brief(), "path": bo.path})))
+                if bo is not bad and bo.reply and bo.reply.get("kind") == "PutResult":
+                    found.append(("C10|malformed-put-acknowledged|" + badkind, schedule_report(run, {"op": bo.brief()})))
             # nothing else listable may have appeared for it either
             for rel in tree:
                 if rel.endswith(STAGING) or rel in initial or rel == "other":
@@ -905,6 +934,22 @@ def outside_calls(trace_prefix, root, wd):
     return out
 
 
+def c11_warmup(b3):
+    """Valid requests that are accepted before the probe: whatever the hub remembers about paths it has
+    already vetted on this connection must not weaken the check of the next one."""
+    w = b"warm-up content"
+    h = b3.data(w)
+    return [cbor.req_put("dir/w1", None, len(w), h) + w, cbor.req_put("sub/deep/w2", None, len(w), h) + w, cbor.req_get("dir/f"), cbor.req_put("name/w3", None, len(w), h) + w]
+
+
+def gen_probe_sharing_prefix(rng):
+    """Paths that begin with a directory the warm-up has just been allowed to write into and then climb out."""
+    pre = rng.pick(["dir/", "sub/deep/", "sub/", "name/", "dir//", "dir/./"])
+    ups = "../" * rng.range(1, 4)
+    tgt = rng.pick(["secret", "ROOTx/f", "name", "created.txt", "ROOT/seed.txt", "seed.txt", "dir/f", ""])
+    return pre + ups + tgt
+
+
 def c11_tail(b3):
     ok = b"benign content"
     h = b3.data(ok)
@@ -946,9 +991,20 @@ def _c11_worker(args):
     ctl_out_calls = outside_calls(ctl_trace, root, wd)
     ctl_reps, _ = parse_replies(ctl["out"])
     ctl_tree = {k: v for k, v in walk_root(root).items()}
+    warmup = c11_warmup(b3)
+    sent, root, home = fresh()
+    ctlw = session(root, cbor.MAGIC + cbor.req_hello() + b"".join(warmup) + b"".join(tail), base_env(home), trace=ctl_trace + "w")
+    ctls = {0: (ctl_out_calls, ctl_reps, ctl_tree), len(warmup): (outside_calls(ctl_trace + "w", root, wd), parse_replies(ctlw["out"])[0], {k: v for k, v in walk_root(root).items()})}
     for idx in range(lo, hi):
         rng = SplitMix.derive(seedv, "c11", idx)
         path = gen_probe(rng, (idx * exhaustive) % 4116 if exhaustive else None)
+        nw = 0
+        if not exhaustive and idx % 2 == 1:
+            nw = len(warmup)
+            if rng.chance(2, 3):
+                path = gen_probe_sharing_prefix(rng)
+            cnt("sessions_with_accepted_requests_before_the_probe")
+        ctl_out_calls, ctl_reps, ctl_tree = ctls[nw]
         for kind in ("Get", "Put", "Delete"):
             sent, root, home = fresh()
             s0 = snapshot(sent)
@@ -970,12 +1026,12 @@ def _c11_worker(args):
                 fr, tail_body = mk(path)
             probe = fr + tail_body
             trace = os.path.join(wd, "tr")
-            r = session(root, cbor.MAGIC + cbor.req_hello() + probe + b"".join(tail), base_env(home), trace=trace)
+            r = session(root, cbor.MAGIC + cbor.req_hello() + b"".join(warmup[:nw]) + probe + b"".join(tail), base_env(home), trace=trace)
             if r["timed_out"]:
                 res["inconclusive"] += 1
                 continue
             res["evaluations"] += 1
-            label = {"path": path, "kind": kind, "index": idx}
+            label = {"path": path, "kind": kind, "index": idx, "accepted_requests_before_probe": nw}
             oc = outside_calls(trace, root, wd)
             extra = {k: v for k, v in oc.items() if v > ctl_out_calls.get(k, 0)}
             for (op, pth, ok), n in sorted(extra.items()):
@@ -995,14 +1051,14 @@ def _c11_worker(args):
             refuse = must_refuse(path)
             if refuse:
                 cnt("refusable_probes[%s]" % kind)
-                if len(reps) < 2 or reps[1].get("kind") != "Error":
-                    res["viol"].append(("C11|%s|absolute-or-dotdot-path-not-refused" % kind, dict(label, reply=str(reps[1:2])[:200])))
+                if len(reps) < 2 + nw or reps[1 + nw].get("kind") != "Error":
+                    res["viol"].append(("C11|%s|absolute-or-dotdot-path-not-refused" % kind, dict(label, reply=str(reps[1 + nw:2 + nw])[:200])))
                 tree = walk_root(root)
                 if tree != ctl_tree:
                     res["viol"].append(("C11|%s|refused-request-changed-the-tree" % kind, dict(label, diff=sorted(set(tree.items()) ^ set(ctl_tree.items()))[:4])))
                 # following requests get the replies they would have got without the refused one
-                got_tail = [strip(x) for x in reps[2:]]
-                want_tail = [strip(x) for x in ctl_reps[1:]]
+                got_tail = [strip(x) for x in reps[2 + nw:]]
+                want_tail = [strip(x) for x in ctl_reps[1 + nw:]]
                 if got_tail != want_tail or ps.broken:
                     res["viol"].append(("C11|%s|connection-not-usable-after-refusal" % kind, dict(label, got=str(got_tail)[:300], want=str(want_tail)[:300], broken=ps.broken)))
                 if r["signal"] is not None:
@@ -1027,7 +1083,7 @@ def _c11_worker(args):
                 res["distinct"].add("%s|%s" % (kind, ",".join(cls)))
             cnt("probes[%s]" % kind)
             if len(res["samples"]) < 2 and refuse:
-                res["samples"].append(dict(label, reply=str(reps[1:2])[:120]))
+                res["samples"].append(dict(label, reply=str(reps[1 + nw:2 + nw])[:120]))
     b3.close()
     rmtree(wd)
     return res
@@ -1076,16 +1132,34 @@ def raw_frame(body, declared=None):
     return struct.pack(">I", len(body) if declared is None else declared) + body
 
 
-def valid_session(b3, rng):
+def valid_session(b3, rng, path="a"):
     """[(name, bytes)] of a short valid session."""
     c = b"session content " + rng.bytes(6).hex().encode() + b"." * rng.pick([0, 10, 5000])
     h = b3.data(c)
-    return [("magic", cbor.MAGIC), ("hello", cbor.req_hello()), ("put", cbor.req_put("a", None, len(c), h) + c), ("get", cbor.req_get("a")), ("delete", cbor.req_delete("a", h)), ("list", cbor.req_list()), ("bye", cbor.req_bye())], c
+    return [("magic", cbor.MAGIC), ("hello", cbor.req_hello()), ("put", cbor.req_put(path, None, len(c), h) + c), ("get", cbor.req_get(path)), ("delete", cbor.req_delete(path, h)), ("list", cbor.req_list()), ("bye", cbor.req_bye())], c
+
+
+def c12_session_path(rng):
+    """Legal relative paths for the well-formed part of a session: final components up to NAME_MAX bytes made
+    of 1-4 byte characters at every alignment (the hub appends its own suffixes to them), deep nesting."""
+    k = rng.below(4)
+    if k == 0:
+        ch = rng.pick(["日", "é", "😀", "x"])
+        want = rng.range(215, 255)
+        pad = "p" * rng.below(len(ch.encode()) + 1)
+        name = pad + ch * ((want - len(pad)) // len(ch.encode()))
+        return rng.pick(["", "d/"]) + name
+    if k == 1:
+        return "/".join(rng.pick(["n", "日本", "a b", "x" * 100]) for _ in range(rng.range(2, 30)))
+    if k == 2:
+        return rng.pick(["a b", "-rf", "it's", "tab\there", "é日", "a.conflict-0123456789ab", "x.1.copia-tmp.keep", "...", "a\\b"])
+    return "a"
 
 
 def gen_c12_input(rng, b3, idx, sweep=None):
     """Returns dict(data, cls, invalid_by_construction, prefixes_sent, expect_file)."""
-    sess, content = valid_session(b3, rng)
+    spath = "a" if sweep is not None or idx % 3 else c12_session_path(rng)
+    sess, content = valid_session(b3, rng, spath)
     full = b"".join(b for _, b in sess)
     if sweep is not None:
         kind, pos = sweep
@@ -1184,7 +1258,7 @@ def gen_c12_input(rng, b3, idx, sweep=None):
     else:
         data = full
         cls = "valid-session"
-    return {"data": data, "cls": cls, "invalid": inval, "prefixes": prefixes, "content": content}
+    return {"data": data, "cls": cls, "invalid": inval, "prefixes": prefixes, "content": content, "path": spath}
 
 
 def c12_verdicts(r, trace, root, inp, viol, cnt, label):
@@ -1370,7 +1444,8 @@ def _c12_worker(args):
                     continue
                 if before.get(rel) == (idv, size):
                     continue
-                if idv == ident(inp["content"]) and (rel == "a" or rel.startswith("a.conflict-")):
+                sp = os.path.normpath(inp.get("path", "a"))
+                if idv == ident(inp["content"]) and (rel == sp or rel.startswith(sp + ".conflict-")):
                     continue
                 if inp["cls"] in ("session-bytes-mutated",):
                     # a mutated path string or length may legitimately name another file with a verified body
